@@ -114,3 +114,9 @@ add("C18",
     "explored with the clock as a solver variable; reserved keys / unserialisable kinds rejected, accepted reports parse back unchanged, counter and time stamps monotone",
     "direct SMT encoding (cvc5 QF_SLIA, unbounded strings) generated from the regex in the source + symbolic execution of the reporter (CrossHair engine + z3)",
     "DESIGN.md 4 C18", note="trusted base: cvc5 1.0.3 string solver; hand-written model of re.findall semantics for this regex shape, differential-tested against re on every model; CPython json; crosshair-tool 0.0.110 + z3 5.1 for the reporter side")
+add("C10",
+    "bounded model checking of the real SimulatorBackend / event heap / time keeper / blackbox simulator backend with a symbolic benchmark table (metric and non-monotone elapsed-time columns), symbolic simulator delays and "
+    "symbolic outside time: delivered values == table entries, consecutive levels from 1 or from the pause level + 1, time stamp == start + rebased & repaired elapsed time + delays (exact arithmetic), simulated clock monotone, sleeps charged; "
+    "1 trial x 3 fidelities with pause/resume (checkpointing on/off), 2 trials x 2 fidelities with a stop",
+    "symbolic execution of the real simulator code (CrossHair engine + z3), independent time-stamp oracle",
+    "DESIGN.md 4 C10")
